@@ -226,3 +226,39 @@ PROPS['C16'] = dict(
         [dict(target='wait', family='waitgroup', mode='random', cases=300000, workers=14, timeout=3000),
          dict(target='wait', family='waitgroup', mode='dfs', bound=3, workers=12, timeout=3000, args=['--dfs-cap', '200000'])]),
 )
+
+PROPS['C14'] = dict(
+    level='exploration', assumptions=FIBER_ASSUME,
+    technique='rapidcheck-generated (options, coroutines, rounds, lock/unlock forms, workers, schedule) cases + '
+              'bounded-exhaustive schedules of two-coroutine programs; holder-count / visibility / FIFO / termination oracle',
+    level_text='2..4 coroutines x 1..3 rounds on a FairThreadPool of 1..3 workers use every lock form (Lock, Guard, '
+               'GuardSticky, TryLock, TryGuard) and unlock form (Unlock, UnlockOn(e) to a second pool, UnlockHere, guard '
+               'destruction, guard.Unlock) of Mutex<Batching,FIFO> for all four option pairs, with optional Yield inside '
+               'the critical section; schedules from the explorer. holders <= 1 at every entry, data written in one '
+               'section is visible in the next, every request is granted (exact quiescent-deadlock detection, incl. a '
+               'single worker), with FIFO on one worker grants follow arrival order; the mutex is destroyed right after '
+               'the last coroutine finished, so late touches are ASan errors.',
+    level_note='Happens-before between critical sections under the real memory model is C04\'s job. Trusts substrate.',
+    jobs=q(
+        [dict(target='comutex', family='comutex', mode='random', cases=15000, workers=12, timeout=600),
+         dict(target='comutex', family='comutex', mode='dfs', bound=1, workers=4, timeout=600, args=['--dfs-cap', '4000'])],
+        [dict(target='comutex', family='comutex', mode='random', cases=250000, workers=14, timeout=3000),
+         dict(target='comutex', family='comutex', mode='dfs', bound=2, workers=10, timeout=3000, args=['--dfs-cap', '150000'])]),
+)
+PROPS['C15'] = dict(
+    level='exploration', assumptions=FIBER_ASSUME,
+    technique='rapidcheck-generated (options, reader/writer coroutines, rounds, forms, workers, schedule) cases + '
+              'bounded-exhaustive schedules of two-coroutine programs; compatibility / visibility / termination oracle',
+    level_text='2..4 reader/writer coroutines x 1..3 rounds on a FairThreadPool of 1..3 workers use Lock/LockShared + '
+               'UnlockHere(Shared), Guard/GuardShared, TryLock(Shared) and TryGuard(Shared) of SharedMutex<FIFO,ReadersFIFO> '
+               'for all four option pairs, with optional Yield inside; schedules from the explorer. A writer never '
+               'overlaps anyone, readers only overlap readers, data written under the exclusive lock is visible to the '
+               'next holder, every coroutine finishes (exact quiescent-deadlock detection); the mutex is destroyed right '
+               'after the last coroutine finished, so late touches are ASan errors.',
+    level_note='Spinlock waits terminate through the explorer\'s fair default; SC interleavings only. Trusts substrate.',
+    jobs=q(
+        [dict(target='comutex', family='cosharedmutex', mode='random', cases=15000, workers=12, timeout=600),
+         dict(target='comutex', family='cosharedmutex', mode='dfs', bound=1, workers=4, timeout=600, args=['--dfs-cap', '4000'])],
+        [dict(target='comutex', family='cosharedmutex', mode='random', cases=250000, workers=14, timeout=3000),
+         dict(target='comutex', family='cosharedmutex', mode='dfs', bound=2, workers=10, timeout=3000, args=['--dfs-cap', '150000'])]),
+)
